@@ -435,14 +435,18 @@ def run(ctx):
         s = symx.eval_fn(oa, consts)
         le = getattr(s, "loop_env", {})
         lv = next(iter(hirq.pat_binds(next(hirq.find(oa.hir["body"], "for"))["pat"])), "byte")
-        got = substitute(le.get("hash", var("?")), {var(lv): var("byte")})
+        # the accumulator: the function's `let mut <acc> = 0` that the byte loop updates, whatever it is called
+        acc = next((l["pat"]["name"] for l in hirq.find(oa.hir["body"], "let") if l["pat"].get("k") == "bind" and l.get("init") is not None and hirq.lit_int(hirq.strip(l["init"])) == 0 and l["pat"]["name"] in le), "hash")
+        ren_acc = {var(lv): var("byte"), var(acc): var("hash")}
+        got = substitute(le.get(acc, var("?")), ren_acc)
         if render(got) == render(ref.one_at_a_time_step()):
             ctx.ok(R_jen, {"kernel": "one_at_a_time step"})
         else:
             ctx.bad(R_jen, "one_at_a_time|step", oa.where, "found   %s\n         reference %s" % (render(got), render(ref.one_at_a_time_step())), "HET/BET name hash differs from Jenkins one-at-a-time")
         # final: evaluate the tail statements with hash symbolic
-        fin = s.env.get("hash")
-        want = substitute(ref.one_at_a_time_final(var("hash")), {var("hash"): le.get("hash", var("hash"))})
+        # (the result is the function's value: the accumulator itself, or a tail expression that finishes the avalanche)
+        fin = s.ret if getattr(s, "ret", None) is not None else s.env.get(acc)
+        want = substitute(ref.one_at_a_time_final(var("hash")), {var("hash"): le.get(acc, var(acc))})
         # after the loop our evaluator continues from the one-iteration state, so compare against final(step)
         if fin is not None and render(fin) == render(want):
             ctx.ok(R_jen, {"kernel": "one_at_a_time final"})
@@ -565,6 +569,8 @@ def run(ctx):
                 else:
                     ctx.ok(R_tail3, {"remainder": n_, "bytes_placed": n_})
         lits = {x["v"]["int"] for x in hirq.find(body, "lit") if "int" in x["v"]}
+        # (a named constant holding the value counts as the value)
+        lits |= {hirq.const_int(x) for x in hirq.find(body, "path") if "def" in (x.get("res") or {}) and hirq.const_int(x) is not None}
         if ref.LOOKUP3_INIT in lits:
             ctx.ok(R_jen, {"kernel": "lookup3 init", "const": hex(ref.LOOKUP3_INIT)})
         else:
